@@ -186,7 +186,7 @@ def run_conc(prop, tier, seed, replay, extra=None, gate0=None):
         violations.append({'replay': path})
         print('  finding [%s] %s [%s]: %s' % (cls, c['cid'], c['g'].desc(), desc[:460]))
     shutil.rmtree(d, ignore_errors=True)
-    cov = {'evaluations': nsched, 'distinct_nontrivial': nsched,
+    cov = {'evaluations': nsched, 'distinct_nontrivial': len(set((tuple(map(tuple, b['ops'])), b['seed'], b['mode']) for c in cases for b in c['batches'] if len(b['ops']) >= 2)), 'nontrivial_rule': 'distinct (batch of >= 2 operations, scheduler seed, bias mode)',
            'rule': 'batches of 2-6 operations (write/read/discard/flush_meta/shrink_caches) started together on disjoint clusters, on sub-ranges of one cluster, on overlapping ranges; caches of 2-8 slices; the scheduler picks every poll and every request completion from a PRNG with four bias modes (uniform, run-first, complete-first, LIFO completion); one schedule per batch; non-trivial = batch with at least two operations',
            'samples': [{'geometry': c['g'].desc(), 'batch': [hist.op_line(o) for o in c['batches'][0]['ops']], 'mode': c['batches'][0]['mode']} for c in cases[:3]],
            'states': nsched, 'transitions': nsched, 'distribution': dict(stats), 'findings_left_to_other_properties': dict(other), 'findings_by_class': dict(seen)}
